@@ -69,7 +69,7 @@ func propC11(w *World, r *Report) {
 			}
 			for k := 0; k < pst.NumFields(); k++ {
 				fname := pst.Field(k).Name()
-				if fname == field || (field == "CameraSerial" && fname == "Serial") {
+				if strings.EqualFold(fname, field) || (field == "CameraSerial" && strings.EqualFold(fname, "Serial")) {
 					return typeShort(p.Type()) + "." + fname + "@" + pl(i)
 				}
 			}
@@ -717,7 +717,14 @@ func checkParserSelection(w *World, r *Report, ci *connInfo) {
 		}
 		return "?"
 	}
-	brand, model := e.termOf(sel.Params[0]).String(), e.termOf(sel.Params[1]).String()
+	var brand, model string
+	if len(sel.Params) == 2 {
+		brand, model = e.termOf(sel.Params[0]).String(), e.termOf(sel.Params[1]).String()
+	} else {
+		// the selector is handed the camera description and asks it for brand and model itself
+		cam := e.termOf(sel.Params[0]).String()
+		brand, model = "headers.HeaderInfo.Brand("+cam+")", "headers.HeaderInfo.Model("+cam+")"
+	}
 	flir := eqStr(`"flir"`, brand)
 	m3, m35, boson := eqStr(cval("Model"), model), eqStr(cval("Model35"), model), eqStr(`"boson"`, model)
 	for i, o := range outs {
@@ -761,7 +768,7 @@ func checkParserSelection(w *World, r *Report, ci *connInfo) {
 			if c, ok := in.(*ssa.Call); ok && c.Call.StaticCallee() != nil && c.Call.StaticCallee().Name() == "NewMotionProcessor" {
 				t := camCanon(w, ci.setup)(he.termOf(c.Call.Args[0]).String())
 				hi := "global:main.headerInfo"
-				r.Check(strings.HasSuffix(t, "."+sel.Name()+"(headers.HeaderInfo.Brand("+hi+"), headers.HeaderInfo.Model("+hi+"))"), "H5", "the processor parses with the parser selected for headerInfo's brand and model", w.InstrPos(c), t)
+				r.Check(strings.HasSuffix(t, "."+sel.Name()+"(headers.HeaderInfo.Brand("+hi+"), headers.HeaderInfo.Model("+hi+"))") || strings.HasSuffix(t, "."+sel.Name()+"("+hi+")"), "H5", "the processor parses with the parser selected for headerInfo's brand and model", w.InstrPos(c), t)
 				gs := he.guardsOf(b)
 				okNil := false
 				for _, g := range gs {
